@@ -264,6 +264,18 @@ PROPS["C07"] = {
     "assumptions": H3_ASSUME,
 }
 
+PROPS["C18"] = {
+    "engine": "h3",
+    "level": "exploration",
+    "budget": {"quick": 45, "thorough": 600},
+    "runs_per_proc": 30,
+    "technique": "deterministic simulation of one real server with the activity stream enabled: stream and consumer-group operations through the real API, activity publish failures (deliveries on the activity subject dropped, so publishes time out and the dispatcher backs off), simulated time across the back-off schedule, Raft snapshots with log truncation, controller leadership loss, clean stop/crash and restart; after a fault-free convergence period the __activity log is compared with the committed Raft log",
+    "level_text": "seeded exploration of operation/fault histories; oracle: every committed stream/group operation has an event whose id is its Raft index and whose content matches it, first appearances are in commit order, redeliveries of an id are byte-identical, no event exists for an entry that has none; bounded liveness: 90 simulated seconds after the last fault the dispatcher has caught up",
+    "level_note": "single server (controller change = leadership loss and re-election of the same server, or restart); the activity partition is led by the same server",
+    "rule": "programs of 6-29 (thorough -75) operations; distinct = distinct event-log hash; non-trivial = >=3 API operations",
+    "assumptions": H3_ASSUME,
+}
+
 NOT_APPLICABLE = [
     {"property_id": pid, "reason": "check not built yet in this round (engine under construction); see DESIGN.md section 9 build order"}
     for pid in ["C%02d" % i for i in range(1, 20)] if pid not in PROPS
